@@ -68,8 +68,9 @@ try:
             shutil.copy(replay, os.path.join(dst, "replay_%s.json" % p))
     dst = os.path.join(V, "seeded", sid)
     os.makedirs(dst, exist_ok=True)
-    shutil.copy(os.path.join(src, "patch.diff"), os.path.join(dst, "patch.diff"))
-    shutil.copy(os.path.join(src, "demo.rs"), os.path.join(dst, "demo.rs"))
+    if os.path.realpath(src) != os.path.realpath(dst):
+        shutil.copy(os.path.join(src, "patch.diff"), os.path.join(dst, "patch.diff"))
+        shutil.copy(os.path.join(src, "demo.rs"), os.path.join(dst, "demo.rs"))
     meta = json.load(open(os.path.join(src, "meta.json")))
     meta.update({"seeded_id": sid, "confirmed": confirmed, "confirmation_runs": ran,
                  "repo_head": subprocess.check_output(["git", "-C", "/repo", "rev-parse", "--short", "HEAD"], text=True).strip(),
